@@ -52,7 +52,7 @@ Blank(c) ==
     /\ cfg' = c /\ data' = <<>> /\ hint' = <<>> /\ dsync' = <<>> /\ hsync' = <<>>
     /\ keydir' = EmptyKeydir /\ stats' = <<>> /\ active' = 0 /\ written' = 0
     /\ wr' = [pc |-> "closed"] /\ model' = [k \in Keys |-> None]
-    /\ everIds' = {} /\ nops' = 0 /\ ncrash' = 0 /\ mghost' = [lastFull |-> -1]
+    /\ everIds' = {} /\ nops' = 0 /\ ncrash' = 0 /\ mghost' = [lastFull |-> -1, leftover |-> -1]
     /\ nfault' = 0 /\ allowed' = [k \in Keys |-> {None}]
 
 TInit ==
@@ -61,7 +61,7 @@ TInit ==
     /\ data = <<>> /\ hint = <<>> /\ dsync = <<>> /\ hsync = <<>>
     /\ keydir = EmptyKeydir /\ stats = <<>> /\ active = 0 /\ written = 0
     /\ wr = [pc |-> "closed"] /\ model = [k \in Keys |-> None]
-    /\ everIds = {} /\ nops = 0 /\ ncrash = 0 /\ mghost = [lastFull |-> -1]
+    /\ everIds = {} /\ nops = 0 /\ ncrash = 0 /\ mghost = [lastFull |-> -1, leftover |-> -1]
     /\ nfault = 0 /\ allowed = [k \in Keys |-> {None}]
 
 IsSys(r) == r.ev = "sys"
@@ -99,7 +99,7 @@ InvEv ==
               /\ NoFaultChange
          [] E.op = "put" -> FStartWrite(E.k, E.v)
          [] E.op = "del" -> FStartWrite(E.k, Tomb)
-         [] E.op = "merge" -> StartMerge /\ NoFaultChange
+         [] E.op = "merge" -> FStartMerge /\ NoFaultChange
     /\ acc' = 0 /\ Consume
 
 -----------------------------------------------------------------------------------------
@@ -112,7 +112,8 @@ SysOpenCreate ==      \* Bitcask::open: rebuild (read only), then create max + 1
     /\ IsCall("create", "data", IF DOMAIN data = {} THEN 0 ELSE Max(DOMAIN data) + 1) /\ E.res >= 0
     /\ OpenFrom(data, hint)
     /\ wr' = Idle
-    /\ UNCHANGED <<cfg, hint, hsync, model, nops, ncrash, mghost>>
+    /\ mghost' = [mghost EXCEPT !.leftover = -1]      \* the writer is a new object
+    /\ UNCHANGED <<cfg, hint, hsync, model, nops, ncrash>>
     /\ NoFaultChange
 
 SysAppend == wr.pc = "append" /\ IsCall("write", "data", active) /\ E.n = wr.calls[wr.ci] /\ AppendStep
@@ -157,6 +158,9 @@ FaultSys ==
           \/ (wr.pc = "m.unlink_data" /\ IsFailed("unlink", "data", NextUnlink))
        /\ FailMerge
     \/ (wr.pc = "m.unlink" /\ wr.unl = {} /\ IsFailed("create", "data", wr.out + 1) /\ FailMergeNewActive)
+    \* the leftover of a failed merge is forced to disk first (or that fsync fails)
+    \/ (wr.pc = "m.sync_leftover" /\ IsCall("fsync", "data", mghost.leftover) /\ FSyncLeftover /\ NoFaultChange)
+    \/ (wr.pc = "m.sync_leftover" /\ IsFailed("fsync", "data", mghost.leftover) /\ FailSyncLeftover)
     \* the retained copy / hint entry landing when the output's writers are dropped: already part of FailMerge
     \/ /\ wr.pc = "fm.unlinkhint" /\ Mutating(E) /\ ~Injected(E) /\ E.call = "write" /\ E.id = wr.out
        /\ UNCHANGED fvars
